@@ -967,7 +967,7 @@ def check(ctx):
     units += [("vec", k, nl, n, "long") for k in BASE if k != "object" for nl in (False, True) for n in (17, 33, 65)]
     units += [("tab",), ("own",)] + [("ren", w) for w in (1, 2, 3)]
     agg = core.merge_all(core.pmap(run_unit, units))
-    agg.notes["bound"] = f"vectors len<={N}; tables 2 rows x <=3 cols; rename lists len<=3"
+    agg.notes["bound"] = f"vectors len<={N}; tables 2 rows x <=3 cols; rename lists len<=3; values that are the table's own live columns: every ordered choice of <=3 targets x sources of a 3x3 table x 5 row keys"
     agg.notes["exhaustive"] = True
     return agg
 
